@@ -3,6 +3,7 @@ matrices alike", the dtype of the images, reachability; not the homomorphism
 identities)."""
 from ..rules import numpy_rules as NP
 from ..rules import misc_rules as MI
+from ..rules import cache_rules as CA
 from ..rules import shape_rules as S
 from ..rules import dtype_rules as D
 from ..rules.common import u1
@@ -21,6 +22,7 @@ ENTRIES = [(LIE, q) for q in (
 def run(ctx):
     ctx.do(S.rule_sh8)
     ctx.do(MI.rule_fwd1, HOM)
+    ctx.do(CA.rule_shared1, [LIE, HOM, "geometry_tools/utils/core.py"])
     ctx.do(D.rule_t4, [LIE, HOM])
     ctx.do(D.rule_t3, [LIE])
     ctx.do(NP.rule_mk2, [LIE])
